@@ -278,4 +278,6 @@ def main(tier):
     run.analysed["overflow_forwarding_call_sites"] = n_inst
     if n_inst < 40:
         run.anchor_missing(rule, "instances", "only %d call sites forward an overflow option (expected >= 40)" % n_inst)
+    from ..rules import extra as _x
+    _x.check_regulate_boundaries(run, fx)
     return run.finish(EXPLANATION)
